@@ -355,6 +355,8 @@ def _config_key(e, env: Env) -> str | None:
 
 def _is_neighbours(e, env: Env) -> bool:
     """`node_and_neighbors(<dag>, <task.signature>)`"""
+    if isinstance(e, ast.Name) and env.vars.get(e.id, UNKNOWN).kind == "nbrs":
+        return True      # a local bound to the neighbours without provisional nodes (see `_comp`)
     return (_callee(e) == "node_and_neighbors" and isinstance(e.func, ast.Name) and len(e.args) == 2 and not e.keywords
             and _is_dag(e.args[0], env) and _is_task_sig(e.args[1], env))
 
@@ -523,6 +525,18 @@ def _cond_noname(e, env):
 
 def _comp(e, env: Env) -> Sym:
     """list comprehensions / generator expressions of persist.py and skipping.py"""
+    # [name for name in node_and_neighbors(dag, sig) if not isinstance(<node of name>, PProvisionalNode)]  (fix for F43: persist
+    # ignores provisional products like the setup hook of execute.py). Static projects — the scope of M6 — have no provisional
+    # nodes, so this is the neighbour list itself.
+    if len(e.generators) == 1 and len(e.generators[0].ifs) == 1 and not e.generators[0].is_async:
+        g, f = e.generators[0], e.generators[0].ifs[0]
+        if _is_neighbours(g.iter, env) and isinstance(g.target, ast.Name) and _is_name(e.elt, g.target.id) \
+                and isinstance(f, ast.UnaryOp) and isinstance(f.op, ast.Not) and _callee(f.operand) == "isinstance" \
+                and len(f.operand.args) == 2 and _exc_name(f.operand.args[1]) == "PProvisionalNode":
+            x = _node_of(f.operand.args[0], env)
+            if x is not None and _is_name(x, g.target.id):
+                return Sym("nbrs")
+        raise _err(f"{env.where()}: unrecognised filtered comprehension: {_u(e)!r}")
     if len(e.generators) != 1 or e.generators[0].ifs or e.generators[0].is_async:
         return UNKNOWN
     g = e.generators[0]
